@@ -1,17 +1,20 @@
 #!/bin/sh
-# Regenerate coq/_CoqProject and coq/Makefile from the .v files on disk.
+# Regenerate coq/_CoqProject and coq/Makefile from the .v files on disk (serialised by a lock: checks run concurrently).
 set -e
 cd "$(dirname "$0")/../coq"
+exec 9>.mkcoq.lock
+flock 9
+TMP=$(mktemp ./_CoqProject.XXXXXX)
 {
   echo "-Q . BSV"
   echo "-arg -w -arg -notation-overridden,-deprecated-hint-without-locality,-deprecated-instance-without-locality,-ambiguous-paths"
   for d in Base Gen Prim Model Spec Proofs Props Run; do
     [ -d "$d" ] && find "$d" -name '*.v' | sort
   done
-} > _CoqProject.new
-if ! cmp -s _CoqProject.new _CoqProject 2>/dev/null || [ ! -f Makefile ]; then
-  mv _CoqProject.new _CoqProject
+} > "$TMP"
+if ! cmp -s "$TMP" _CoqProject 2>/dev/null || [ ! -f Makefile ] || [ ! -f Makefile.conf ]; then
+  mv "$TMP" _CoqProject
   coq_makefile -f _CoqProject -o Makefile >/dev/null
 else
-  rm -f _CoqProject.new
+  rm -f "$TMP"
 fi
